@@ -8,7 +8,8 @@
   * `parseLine` ranges over the map of directive patterns: the recognisers are pairwise disjoint
     (`C03_classification_unambiguous`), so the order in which they are tried is irrelevant;
   * `complete` ranges over the flag set: `C02_flags_order_free`;
-  * `buildIncludeExceptString` ranges over the line map and sorts by distinct indices (modelled by its result,
+  * `buildIncludeExceptString` ranges over the line map and sorts by index: `C03_include_except_order_free` (the
+    indices are pairwise distinct, so every iteration order and every sorting algorithm give the model's
     `dedupLast`/`filter`; C06);
   * `expandDefinitions` ranges three times over the definitions map: C07.
 
@@ -17,6 +18,7 @@
 import Crs.Parser
 import CrsProofs.Lines
 import CrsProps.C02
+import CrsProofs.SortPerm
 namespace Crs.Props
 open Crs Crs.Pat Crs.Parser
 
@@ -180,5 +182,36 @@ example : claims "##! x ##!> include inc".toList = ["comment"] ∧ claims "##!> 
     claims "##!> include-except a b".toList = ["include-except"] ∧ claims "##!> define n v".toList = ["definition"] ∧
     claims "##!+ is".toList = ["flags"] ∧ claims "foo".toList = [] := by
   decide
+
+/-! ### the include-except line map -/
+
+theorem map_fst_filter {α β} (p : α → Bool) (es : List (α × β)) :
+    (es.filter (fun e => p e.1)).map Prod.fst = (es.map Prod.fst).filter p := by
+  induction es with
+  | nil => rfl
+  | cons e es ih =>
+    simp only [List.filter_cons, List.map_cons]
+    split <;> simp [ih]
+
+/-- **C03 (include-except is order-free).** `buildIncludeExceptString` copies the entries of a Go map (line ↦ index of
+    its last occurrence, minus the excluded lines) into a slice in map iteration order and sorts the slice by index.
+    Whatever order the map yields (`ord`: any permutation of the surviving entries) and whatever algorithm sorts
+    (`sorted`: any permutation of `ord` that is ordered by index), the lines that come out are the include file's
+    lines, each once at its last position, without the excluded ones — the model's `dedupLast` / `filter`. The reason
+    is that the indices are pairwise distinct (`lastEntries_sorted`); a tie between two indices is exactly what would
+    make the result depend on the iteration order. -/
+theorem C03_include_except_order_free (ls : List Bytes) (excluded : List Bytes) (ord sorted : List (Bytes × Nat))
+    (hord : ord.Perm ((lastEntries 0 ls).filter (fun e => !excluded.contains e.1)))
+    (hperm : sorted.Perm ord) (hsorted : sorted.Pairwise (fun a b => a.2 ≤ b.2)) :
+    sorted.map Prod.fst = (dedupLast ls).filter (fun l => !excluded.contains l) := by
+  have hcanon : ((lastEntries 0 ls).filter (fun e => !excluded.contains e.1)).Pairwise (fun a b => a.2 < b.2) :=
+    (lastEntries_sorted 0 ls).filter _
+  have := eq_of_perm_sorted (fun e : Bytes × Nat => e.2) _ sorted (hord.symm.trans hperm.symm) hcanon hsorted
+  rw [← this, ← lastEntries_fst 0 ls]
+  exact map_fst_filter (fun l => !excluded.contains l) (lastEntries 0 ls)
+
+/-- non-vacuity: with a repeated line the canonical entries have distinct, increasing indices -/
+example : lastEntries 0 ["curl".toList, "wget".toList, "curl".toList, "nc".toList] =
+    [("wget".toList, 1), ("curl".toList, 2), ("nc".toList, 3)] := by decide
 
 end Crs.Props
